@@ -139,6 +139,34 @@ pub fn nested_family2(ty: usize, pos: usize, br: usize, k: usize) -> String {
     )
 }
 
+/// k branch points nested in *scrutinee* position: `(((t.case {..}).case {..}) ...).case {..}`
+/// (kind 0: matches all the way down; kind 1: a conditional at the bottom; kind 2: destructor
+/// scrutinee chains over a two-destructor codata type with a conditional at the bottom)
+pub fn scrutinee_family(kind: usize, k: usize) -> String {
+    let rot = "case { A => B, B => C, C => D, D => A }";
+    let mut e = match kind {
+        1 => "(if a == 0 { A } else { t })".to_string(),
+        _ => "t".to_string(),
+    };
+    let body = if kind == 2 {
+        let mut s = "(if a == 0 { ones() } else { ones().tail[i64] })".to_string();
+        for _ in 0..k {
+            s = format!("({s}).tail[i64]");
+        }
+        format!("({s}).head[i64]")
+    } else {
+        for i in 0..k {
+            // clause bodies are not statically known constructors
+            e = format!("({e}).case {{ A => wt(B), B => if a == {i} {{ C }} else {{ D }}, C => D, D => A }}");
+        }
+        let _ = rot;
+        format!("({e}).case {{ A => 0, B => 1, C => 2, D => 3 }}")
+    };
+    format!(
+        "{PRELUDE}def wt(x: T): T {{ x.case {{ A => B, B => C, C => D, D => A }} }}\ndef ones(): Stream[i64] {{ new {{ head => 1, tail => ones() }} }}\ndef f(a: i64, t: T): i64 {{\n  {body}\n}}\ndef main(a: i64): i64 {{ f(a, B) }}\n"
+    )
+}
+
 pub fn random_size_family(c: &mut Chooser) -> (Vec<usize>, Vec<usize>, usize, usize) {
     let n = 1 + c.choose(3);
     let kinds: Vec<usize> = (0..n).map(|_| c.choose(KINDS)).collect();
